@@ -15,8 +15,11 @@
 (*   pnext   primary nextPool: sequence of [pos, k, v] in Put order           *)
 (*   pfiles  primary files: sequences of [k, v, del, size] (size = payload     *)
 (*           bytes; a merged free span is one deleted record); pfirst, plen   *)
-(*   flgc    the .gc file handed to primary GC ([has, l]); visited = files    *)
-(*           primary GC has looked at and that were not affected since        *)
+(*   flgc    the .gc file handed to primary GC ([has, l])                     *)
+(*   gcmem   what the collectors remember between cycles (in memory only):    *)
+(*           vis = files primary GC has looked at and that were not affected  *)
+(*           since; ires = where an index GC cycle stopped by its time limit  *)
+(*           resumes ([has, at])                                              *)
 (*   recFile, recPos   where primary.Put predicts the next record             *)
 (*   flpool, flfile    freelist pool / file: sequences of [off, sz]           *)
 (*   kv      ghost: the map of KV.tla (refinement witness)                    *)
@@ -36,20 +39,23 @@ CONSTANTS Keys,       \* set of digests (equal length, >= 4 bytes); bucket = dig
           MaxCalls,   \* bound on the history length (state space)
           WithGC,     \* TRUE: the two collectors' cycles are among the calls
           LowUses,    \* low-use thresholds of primary GC to explore (101 = never relocate)
+          IDeadlines, \* time limits of an index GC cycle to explore (same convention as Deadlines)
           Deadlines   \* time limits of a primary GC cycle to explore: the cycle's context reports DeadlineExceeded from its
                       \* (d+1)-th check on (0 = no limit) - the deterministic stand-in for a time limit that the harness uses
 
 VARIABLES kv, bk, inext, ifiles, ifirst, ilen,
           pnext, pfiles, pfirst, plen, recFile, recPos,
-          flpool, flfile, flgc, visited, hist
-vars == <<kv, bk, inext, ifiles, ifirst, ilen, pnext, pfiles, pfirst, plen, recFile, recPos, flpool, flfile, flgc, visited, hist>>
-View == <<kv, bk, inext, ifiles, ifirst, ilen, pnext, pfiles, pfirst, plen, recFile, recPos, flpool, flfile, flgc, visited>>
+          flpool, flfile, flgc, gcmem, hist
+vars == <<kv, bk, inext, ifiles, ifirst, ilen, pnext, pfiles, pfirst, plen, recFile, recPos, flpool, flfile, flgc, gcmem, hist>>
+View == <<kv, bk, inext, ifiles, ifirst, ilen, pnext, pfiles, pfirst, plen, recFile, recPos, flpool, flfile, flgc, gcmem>>
 
 Bucket(k) == k[1]
 Strip(k) == SubSeq(k, 2, Len(k))
 Buckets == {Bucket(k) : k \in Keys}
 KeyLen == 2 + Len(CHOOSE k \in Keys : TRUE)      \* multihash = code byte + length byte + digest
 NoList == [has |-> FALSE, l |-> <<>>]
+NoRes == [has |-> FALSE, at |-> 0]
+NoMem == [vis |-> {}, ires |-> NoRes]
 SomeList(x) == [has |-> TRUE, l |-> x]
 
 \* ---------------------------------------------------------------- primary
@@ -125,7 +131,7 @@ Init ==
   /\ bk = [b \in Buckets |-> 0] /\ inext = [b \in Buckets |-> NoList]
   /\ ifiles = << <<>> >> /\ ifirst = 0 /\ ilen = 0
   /\ pnext = <<>> /\ pfiles = << <<>> >> /\ pfirst = 0 /\ plen = 0 /\ recFile = 0 /\ recPos = 0
-  /\ flpool = <<>> /\ flfile = <<>> /\ flgc = [has |-> FALSE, l |-> <<>>] /\ visited = {}
+  /\ flpool = <<>> /\ flfile = <<>> /\ flgc = [has |-> FALSE, l |-> <<>>] /\ gcmem = NoMem
   /\ hist = <<>>
 
 Call(rec) == Len(hist) < MaxCalls /\ hist' = Append(hist, rec)
@@ -134,7 +140,7 @@ Put(k, v) ==
   /\ Call([op |-> "put", k |-> k, v |-> v])
   /\ LET lk == Lookup(k) IN
      IF lk.found /\ lk.v = v
-     THEN UNCHANGED <<kv, bk, inext, ifiles, ifirst, ilen, pnext, pfiles, pfirst, plen, recFile, recPos, flpool, flfile, flgc, visited>>
+     THEN UNCHANGED <<kv, bk, inext, ifiles, ifirst, ilen, pnext, pfiles, pfirst, plen, recFile, recPos, flpool, flfile, flgc, gcmem>>
      ELSE LET pp  == PutPos
               abs == PriLimit * pp.f + pp.p
               loc == [off |-> abs, sz |-> KeyLen + v]
@@ -150,7 +156,7 @@ Put(k, v) ==
                                                                ELSE << [p |-> Take(Strip(k), 1), loc |-> loc] >>)]
                      /\ UNCHANGED flpool
              /\ kv' = [kv EXCEPT ![k] = v]
-             /\ UNCHANGED <<bk, ifiles, ifirst, ilen, pfiles, pfirst, plen, flfile, flgc, visited>>
+             /\ UNCHANGED <<bk, ifiles, ifirst, ilen, pfiles, pfirst, plen, flfile, flgc, gcmem>>
 
 Remove(k) ==
   /\ Call([op |-> "rem", k |-> k])
@@ -158,12 +164,12 @@ Remove(k) ==
          b  == Bucket(k)
          el == EffList(b)
      IN IF ~lk.found
-        THEN UNCHANGED <<kv, bk, inext, ifiles, ifirst, ilen, pnext, pfiles, pfirst, plen, recFile, recPos, flpool, flfile, flgc, visited>>
+        THEN UNCHANGED <<kv, bk, inext, ifiles, ifirst, ilen, pnext, pfiles, pfirst, plen, recFile, recPos, flpool, flfile, flgc, gcmem>>
         ELSE LET m == Match(el.l, Strip(k)) IN
              /\ inext' = [inext EXCEPT ![b] = SomeList(Splice(el.l, m, m + 1, <<>>))]
              /\ flpool' = Append(flpool, lk.loc)
              /\ kv' = [kv EXCEPT ![k] = -1]
-             /\ UNCHANGED <<bk, ifiles, ifirst, ilen, pnext, pfiles, pfirst, plen, recFile, recPos, flfile, flgc, visited>>
+             /\ UNCHANGED <<bk, ifiles, ifirst, ilen, pnext, pfiles, pfirst, plen, recFile, recPos, flfile, flgc, gcmem>>
 
 \* primary.Flush: append the pooled records, rolling when the current length has reached the limit
 RECURSIVE PriAppendAll(_, _, _)
@@ -195,12 +201,12 @@ FlushWith(order) ==
      /\ ifiles' = ia.files /\ ilen' = ia.len /\ bk' = ia.bk
      /\ inext' = [b \in Buckets |-> NoList]
      /\ flfile' = flfile \o flpool /\ flpool' = <<>>
-     /\ UNCHANGED <<kv, ifirst, pfirst, recFile, recPos, flgc, visited>>
+     /\ UNCHANGED <<kv, ifirst, pfirst, recFile, recPos, flgc, gcmem>>
 
 Flush ==
   /\ Call([op |-> "flush"])
   /\ IF pnext = <<>> /\ Dirty = {}        \* Store.Flush: no outstanding work (the freelist alone does not count)
-     THEN UNCHANGED <<kv, bk, inext, ifiles, ifirst, ilen, pnext, pfiles, pfirst, plen, recFile, recPos, flpool, flfile, flgc, visited>>
+     THEN UNCHANGED <<kv, bk, inext, ifiles, ifirst, ilen, pnext, pfiles, pfirst, plen, recFile, recPos, flpool, flfile, flgc, gcmem>>
      ELSE \E order \in Perms(Dirty) : FlushWith(order)
 
 
@@ -288,16 +294,16 @@ PriGCd(lu, d) ==
          stopM  == d > 0 /\ e > 0 /\ d = e
          r      == IF d = 0 THEN -1 ELSE IF e > 0 THEN d - (e + 1) ELSE d
          marked == MarkAll(pfiles, ho.gc)
-         vis1   == visited \ Affected(pfiles, marked)
+         vis1   == gcmem.vis \ Affected(pfiles, marked)
          rp     == ReapFiles(marked, pfirst, 1, vis1, lu, [pnext |-> pnext, recFile |-> recFile, recPos |-> recPos, inext |-> inext, flpool |-> flpool], r)
      IN IF stop1
         THEN /\ flfile' = ho.fl /\ flgc' = [has |-> TRUE, l |-> ho.gc]
-             /\ UNCHANGED <<pfiles, pfirst, visited, plen, pnext, recFile, recPos, inext, flpool>>
+             /\ UNCHANGED <<pfiles, pfirst, gcmem, plen, pnext, recFile, recPos, inext, flpool>>
         ELSE IF stopM
         THEN /\ flfile' = ho.fl /\ flgc' = [has |-> TRUE, l |-> ho.gc]
-             /\ pfiles' = marked /\ visited' = vis1
+             /\ pfiles' = marked /\ gcmem' = [gcmem EXCEPT !.vis = vis1]
              /\ UNCHANGED <<pfirst, plen, pnext, recFile, recPos, inext, flpool>>
-        ELSE /\ pfiles' = rp.files /\ pfirst' = rp.first /\ visited' = rp.vis
+        ELSE /\ pfiles' = rp.files /\ pfirst' = rp.first /\ gcmem' = [gcmem EXCEPT !.vis = rp.vis]
              /\ flfile' = ho.fl /\ flgc' = [has |-> FALSE, l |-> <<>>]
              /\ plen' = plen
              /\ pnext' = rp.acc.pnext /\ recFile' = rp.acc.recFile /\ recPos' = rp.acc.recPos
@@ -321,30 +327,60 @@ IMerge(recs) ==
 IReap(recs, fnum) == LET m == IMerge(IMarkFree(recs, fnum)) IN
                      IF m # <<>> /\ m[Len(m)].del THEN SubSeq(m, 1, Len(m) - 1) ELSE m
 IReferenced == {(bk[b] - 4) \div IdxLimit : b \in {x \in Buckets : bk[x] # 0}}
-\* truncateFreeFiles: non-current files no bucket refers into: removed while they are the first file, else emptied
-RECURSIVE ITruncFree(_, _, _)
-ITruncFree(files, first, i) ==
-  IF i >= Len(files) THEN [files |-> files, first |-> first]
-  ELSE IF (first + i - 1) \in IReferenced THEN ITruncFree(files, first, i + 1)
-  ELSE IF i = 1 THEN ITruncFree(Tail(files), first + 1, 1)
-  ELSE ITruncFree([files EXCEPT ![i] = <<>>], first, i + 1)
-\* the reaping pass over the non-current files in order; an emptied file is removed while it is the first file
-RECURSIVE IPass(_, _, _)
-IPass(files, first, i) ==
-  IF i >= Len(files) THEN [files |-> files, first |-> first]
-  ELSE LET recs2 == IReap(files[i], first + i - 1) IN
-       IF recs2 = <<>> /\ i = 1 THEN IPass(Tail(files), first + 1, 1)
-       ELSE IPass([files EXCEPT ![i] = recs2], first, i + 1)
+\* truncateFreeFiles: non-current files no bucket refers into: removed while they are the first file, else emptied.  One
+\* context check BEFORE each such file; r = checks that still succeed (-1 = no limit); stop = the time limit ended the pass
+RECURSIVE ITruncFree(_, _, _, _)
+ITruncFree(files, first, i, r) ==
+  IF i >= Len(files) THEN [files |-> files, first |-> first, r |-> r, stop |-> FALSE]
+  ELSE IF (first + i - 1) \in IReferenced THEN ITruncFree(files, first, i + 1, r)
+  ELSE IF r = 0 THEN [files |-> files, first |-> first, r |-> r, stop |-> TRUE]
+  ELSE LET r2 == IF r > 0 THEN r - 1 ELSE r IN
+       IF i = 1 THEN ITruncFree(Tail(files), first + 1, 1, r2)
+       ELSE ITruncFree([files EXCEPT ![i] = <<>>], first, i + 1, r2)
+\* the reaping pass (Index.gc): it starts at the first file - or at the file in which the previous cycle was stopped by its
+\* time limit - goes up to the current file, wraps around to the first file and ends where it started (or at the current
+\* file, if it removed the first file on the way).  Reaping a file costs one context check per record plus one (none for
+\* an empty file); when check number r+1 fails the first r records have been marked and merged in place, nothing has
+\* been truncated, and the file is remembered as the place to resume.  An emptied file is removed while it is the first.
+RECURSIVE IdxLoop(_, _, _, _, _, _)
+IdxLoop(files, first, fnum, start, seenFirst, r) ==
+  LET last == first + Len(files) - 1
+      i    == fnum - first + 1
+      recs == files[i]
+      need == IF recs = <<>> THEN 0 ELSE Len(recs) + 1
+  IN IF r >= 0 /\ need > 0 /\ r < need
+     THEN LET mk   == IMarkFree(recs, fnum)
+              part == IMerge(SubSeq(mk, 1, r)) \o SubSeq(recs, r + 1, Len(recs))
+          IN [files |-> [files EXCEPT ![i] = part], first |-> first, res |-> [has |-> TRUE, at |-> fnum]]
+     ELSE LET r2     == IF r < 0 THEN r ELSE r - need
+              recs2  == IF recs = <<>> THEN <<>> ELSE IReap(recs, fnum)
+              rm     == recs2 = <<>> /\ fnum = first
+              files2 == IF rm THEN Tail(files) ELSE [files EXCEPT ![i] = recs2]
+              first2 == IF rm THEN first + 1 ELSE first
+              seen2  == seenFirst \/ rm
+              n1     == fnum + 1
+              n2     == IF n1 = last THEN (IF seen2 THEN -1 ELSE first2) ELSE n1
+          IN IF n2 = -1 \/ n2 = start THEN [files |-> files2, first |-> first2, res |-> NoRes]
+             ELSE IdxLoop(files2, first2, n2, start, seen2, r2)
 
-IdxGC(scanFree) ==
-  /\ Call([op |-> "idxgc", scanFree |-> scanFree])
-  /\ LET a == IF scanFree THEN ITruncFree(ifiles, ifirst, 1) ELSE [files |-> ifiles, first |-> ifirst]
-         b == IPass(a.files, a.first, 1)
-     IN ifiles' = b.files /\ ifirst' = b.first
-  /\ UNCHANGED <<kv, bk, inext, ilen, pnext, pfiles, pfirst, plen, recFile, recPos, flpool, flfile, flgc, visited>>
+IdxGCd(scanFree, d) ==
+  /\ Call([op |-> "idxgc", scanFree |-> scanFree, deadline |-> d])
+  /\ LET a     == IF scanFree THEN ITruncFree(ifiles, ifirst, 1, IF d = 0 THEN -1 ELSE d)
+                   ELSE [files |-> ifiles, first |-> ifirst, r |-> IF d = 0 THEN -1 ELSE d, stop |-> FALSE]
+         start == IF gcmem.ires.has THEN gcmem.ires.at ELSE a.first
+     IN IF a.stop                                   \* the free-file scan ran out of time: the resume point stays
+        THEN ifiles' = a.files /\ ifirst' = a.first /\ UNCHANGED gcmem
+        ELSE IF Len(a.files) = 1                    \* no file but the current one
+        THEN ifiles' = a.files /\ ifirst' = a.first /\ UNCHANGED gcmem
+        ELSE IF start < a.first                     \* the file to resume in is gone: the cycle fails at once, the resume point is forgotten
+        THEN ifiles' = a.files /\ ifirst' = a.first /\ gcmem' = [gcmem EXCEPT !.ires = NoRes]
+        ELSE LET b == IdxLoop(a.files, a.first, start, start, FALSE, a.r)
+             IN ifiles' = b.files /\ ifirst' = b.first /\ gcmem' = [gcmem EXCEPT !.ires = b.res]
+  /\ UNCHANGED <<kv, bk, inext, ilen, pnext, pfiles, pfirst, plen, recFile, recPos, flpool, flfile, flgc>>
+IdxGC(scanFree) == IdxGCd(scanFree, 0)
 
 Next == \/ (\E k \in Keys, v \in Vals : Put(k, v)) \/ (\E k \in Keys : Remove(k)) \/ Flush
-        \/ (WithGC /\ ((\E lu \in LowUses, d \in Deadlines : PriGCd(lu, d)) \/ \E sf \in BOOLEAN : IdxGC(sf)))
+        \/ (WithGC /\ ((\E lu \in LowUses, d \in Deadlines : PriGCd(lu, d)) \/ \E sf \in BOOLEAN, d \in IDeadlines : IdxGCd(sf, d)))
 Spec == Init /\ [][Next]_vars
 
 \* ---------------------------------------------------------------- properties
